@@ -469,6 +469,8 @@ func handleOne(rq wproto.Req, alone bool) (rp wproto.Rep) {
 					target = p + "//" + t
 				case "dotin":
 					target = p + "/./" + t
+				case "dotdot":
+					target = p + "/gone/../" + t // lexically the same directory; "gone" does not exist
 				}
 			}
 		}
